@@ -64,6 +64,7 @@ type ctxModel struct {
 	base uint64
 
 	shadow []byte
+	good   []int32 // per arena byte: index of the last read op that found it equal to the shadow (-1 none)
 	bufs   []bufInfo
 	pagePA []uint64
 	pageDv []int
@@ -78,7 +79,8 @@ type ctxModel struct {
 	pend           []*pendingRead
 	busyQ          map[int]bool
 	nextBlocking   int
-	lastWrite      int // index into ops of the most recent write op, -1
+	lastWrite      int  // index into ops of the most recent write op, -1
+	broken         bool // a violation was reported for this context: shadow and device are out of sync, later comparisons would only cascade
 }
 
 func (m *ctxModel) ptr(off int) driver.Ptr { return driver.Ptr(m.base + uint64(off)) }
